@@ -192,3 +192,18 @@ for _name, _rect, _what in (
           timeout_ms={'quick': 60000, 'thorough': 300000}, validate={'quick': 40, 'thorough': 80}, validate_doubles='int',
           what=_what, out='lexing inside libstdc++, file open failure, the Db construction that follows (Db::resetFromCSV)',
           assumptions=_CSV_ASSUME, stubs=_CSV_STUBS)
+
+
+# ---- C09.h (builder3): BMP reader, header fields and colour table under an arbitrary file content
+K('C09.h.bmp', property='C09', engine='symex', harness='C09/bmp.cpp', entry='k_bmp_header',
+  tus=['src/OutputFormat/GridBmp.cpp', 'src/OutputFormat/AOF.cpp'], defines={'all': {'VF_NCOLMAX': 300}},
+  bounds={'quick': 'every header field an arbitrary int, except: colour count <= 300 (any negative value), compression field != 0 (the file is then refused right after the colour table); palette bytes arbitrary'},
+  timeout_ms={'quick': 60000, 'thorough': 300000}, validate={'quick': 30, 'thorough': 60},
+  what='GridBmp::readGridFromFile from the first header field to the end of the colour table: the 15 header fields are read in order before anything else; a colour count above 256 is refused before any '
+       'palette byte is read, otherwise 4 bytes per colour are read into ir/ig/ib[256] (every store carries the in-bounds obligation of the engine); the refused file gives a null grid',
+  out='the image part (allocation of nx*ny values from header fields: sizes must be concrete for the engine; palette look-up ir[c] for a pixel byte c >= colour count reads an entry that was never filled); '
+      'GridBmp::_compose itself (little-endian composition: a 4-byte field with a top byte >= 128 overflows the int accumulation value += c * factor, and factor *= 0x100 overflows after the 4th byte: '
+      'signed overflow, benign on the usual targets); end of file inside the header (fgetc gives EOF, read as byte 255); colour counts above 300',
+  assumptions=['GridBmp object is raw storage (only _file = null is set): the reader touches nothing else once the helpers are overridden'],
+  stubs=['GridBmp::_compose(nb) -> k-th call returns the arbitrary int H[k] (nb must be 2 or 4, at most 15 calls: counted)', 'GridBmp::_readIn() -> an arbitrary byte (one symbolic value), calls counted',
+         'AOF::_fileReadOpen -> 0, AOF::_fileClose -> nothing', 'messerr / message -> empty'])
